@@ -26,7 +26,7 @@ def prep_slot(k):
     d = f'{ROOT}/slot{k}'
     os.makedirs(d, exist_ok=True)
     sh(f"rsync -a --delete --exclude 'target*' --exclude .git --exclude work --exclude replays --exclude evidence --exclude seeded --exclude 'mutants/results*' /verif/ {d}/verif/")
-    sh(f"grep -rl '\"/repo\"' {d}/verif/harness {d}/verif/harness-serde --include=Cargo.toml | xargs sed -i 's#\"/repo\"#\"{d}/repo\"#'")
+    sh(f"grep -rl '\"/repo\"' {d}/verif/harness {d}/verif/harness-serde {d}/verif/apiprobe --include=Cargo.toml | xargs sed -i 's#\"/repo\"#\"{d}/repo\"#'")
     return d
 
 def fresh_repo(d):
